@@ -145,7 +145,18 @@ def make_case(rng):
     nreq = rng.choice([1, 2, 2, 3])
     reqs = [gen_request(rng, i, i == nreq - 1) for i in range(nreq)]
     progs = [gen_program(rng, r) for r in reqs]
-    return {"kind": rng.choice(["sync", "gthread", "async"]), "cfg": rng.randrange(len(CFG_VARIANTS)),
+    slow = None
+    if rng.random() < 0.012:
+        # a response far larger than the socket buffers, on the last request of the connection, read by a client that takes
+        # its time: the server has to block in send
+        big = progs[-1]
+        code = int(big["status"].split()[0])
+        if wire_method(reqs[-1]) != "HEAD" and code not in (204, 304) and big.get("mode") in ("list", "gen", "write", "write+iter"):
+            big["chunks"] = [{"rep": [rng.randrange(256), rng.choice([700000, 1500000])]}]
+            big["cl"] = rng.choice([None, "exact"])
+            big.pop("cut_by", None)
+            slow = 0.25
+    return {"kind": rng.choice(["sync", "gthread", "async"]), "cfg": rng.randrange(len(CFG_VARIANTS)), "read_delay": slow,
             "reqs": reqs, "progs": progs,
             "segments": rng.choice([None, None, "bytes", "random"])}
 
@@ -322,7 +333,8 @@ def run_case(run, e2, harnesses, case, scratch):
         rng = rng_for(0, common.sha12(case))
         cuts = sorted(rng.sample(range(1, len(script)), min(len(script) - 1, 3)))
         seg = [b - a for a, b in zip([0] + cuts, cuts + [len(script)])]
-    out = h.connection(script, router, segments=seg)
+    out = h.connection(script, router, segments=seg, read_delay=case.get("read_delay") or 0.0,
+                       timeout=8.0 if case.get("read_delay") else 4.0)
     verdicts = judge(case, out, router)
     # reach counters
     res = parse_lenient_head_errors(out["received"], [wire_method(r) for r in case["reqs"]], out["eof"])
@@ -336,6 +348,8 @@ def run_case(run, e2, harnesses, case, scratch):
             run.count("programs_with_failure_point")
         if p.get("mode") == "file":
             run.count("file_wrapper_programs")
+    if case.get("read_delay"):
+        run.count("large_response_slow_reader_cases")
     return verdicts, out
 
 
@@ -485,7 +499,7 @@ def main(tier, seed):
     run = Run(PROP, tier, seed, "exploration", RULE)
     run.require("responses_parsed", "framing/cl", "framing/chunked", "framing/close", "framing/none",
                 "keepalive_continuations", "programs_with_failure_point", "file_wrapper_programs",
-                "kind/sync", "kind/gthread", "kind/async")
+                "kind/sync", "kind/gthread", "kind/async", "large_response_slow_reader_cases")
     q = tier == "quick"
     shards = [{"n": 1500 if q else 20000, "sub": s, "seed": seed, "tier": tier} for s in range(32 if q else 64)]
     shards += [{"kind": "live", "class": c, "n": 250 if q else 2000, "seed": seed, "tier": tier}
